@@ -204,7 +204,7 @@ pub fn generate(profile: &str, seed: u64, index: u64) -> CrashScenario {
             }
             3 | 4 => {
                 let mut s = st("refused");
-                s.how = (*rng.pick(&["sig_mismatch", "null_ptr", "bool_on_nonbool", "mprotect", "mprotect_persistent", "enomem", "async_wrong_type"])).into();
+                s.how = (*rng.pick(&["sig_mismatch", "null_ptr", "bool_on_nonbool", "mprotect", "mprotect_persistent", "mprotect_noexec", "enomem", "async_wrong_type"])).into();
                 let pos = rng.below(steps.len() as u64 + 1) as usize;
                 steps.insert(pos, s);
                 steps.truncate(pos + 1);
@@ -306,6 +306,14 @@ fn do_refused(inj: &mut InjectorPP, how: &str) {
             // is affected
             let a = LONELY_FN;
             interpose::set_faults(Faults { mprotect_deny: Some((a & !4095, (a & !4095) + 4096)), ..Default::default() });
+            interpose::arm(true);
+            inj.when_called(unsafe { FuncPtr::new(a as *const (), "fn(u32) -> u32") }).will_execute_raw(injectorpp::func!(fn (cr_fake_a)(u32) -> u32));
+        }
+        "mprotect_noexec" => {
+            // the same lonely function, on a page that may become writable but never (again)
+            // executable: any request that includes PROT_EXEC is refused for the whole unwind
+            let a = LONELY_FN;
+            interpose::set_faults(Faults { mprotect_deny_exec: Some((a & !4095, (a & !4095) + 4096)), ..Default::default() });
             interpose::arm(true);
             inj.when_called(unsafe { FuncPtr::new(a as *const (), "fn(u32) -> u32") }).will_execute_raw(injectorpp::func!(fn (cr_fake_a)(u32) -> u32));
         }
@@ -480,7 +488,7 @@ pub fn execute(sc: &CrashScenario, sh: &Shared) -> Value {
                         // cr_e is the refused target unless it is already faked (then bytes are
                         // the live patch and must stay exactly that)
                         let before = slot(cr_e as fn(u32) -> u32 as usize);
-                        let os_kind = matches!(s.how.as_str(), "enomem" | "mprotect" | "mprotect_persistent");
+                        let os_kind = matches!(s.how.as_str(), "enomem" | "mprotect" | "mprotect_persistent" | "mprotect_noexec");
                         let mut accepted_despite_os_fault = false;
                         if s.caught {
                             let r = catch_unwind(AssertUnwindSafe(|| do_refused(&mut inj, &s.how)));
@@ -519,7 +527,7 @@ pub fn execute(sc: &CrashScenario, sh: &Shared) -> Value {
                             // trampoline was needed): legitimate, and judged by behaviour -- the
                             // function must now answer with the fake.  The lifetime ends here.
                             *probes.entry("os_fault_did_not_prevent_the_installation".into()).or_insert(0) += 1;
-                            let redirected = if s.how == "mprotect_persistent" { slot(LONELY_FN as usize) != pristine[5] } else { black_box(cr_e as fn(u32) -> u32)(1) == 501 };
+                            let redirected = if s.how == "mprotect_persistent" || s.how == "mprotect_noexec" { slot(LONELY_FN as usize) != pristine[5] } else { black_box(cr_e as fn(u32) -> u32)(1) == 501 };
                             if !redirected {
                                 v("accepted-install-does-not-redirect", &["C05", "C01"], format!("lifetime {li} step {si}: the installation under an OS fault ({}) reported success but the function is not redirected", s.how));
                             }
